@@ -196,6 +196,13 @@ theorem truncV_inverted_abs (s : State K) (l r : K) (h : r ≤ l) :
     step s (.truncV l r false false) = fail s .valueError :=
   truncV_inverted s l r false false (by simpa using h)
 
+/-- conversely, on non-empty strictly increasing working and reference abscissae
+`truncate_by_value` is never refused with anything but `ValueError` -/
+theorem truncV_only_valueError (s : State K) (l r : K) (lr rr : Bool) (hx : s.x.Pairwise (· < ·))
+    (hx0 : s.x ≠ []) (hrx : s.rx.Pairwise (· < ·)) (hrx0 : s.rx ≠ []) (e : Err)
+    (h : (step s (.truncV l r lr rr)).err = some e) : e = .valueError :=
+  step_truncV_err s l r lr rr hx hx0 hrx hrx0 e h
+
 /-- out-of-range index bounds for `truncate_by_index` -/
 theorem truncI_bounds (s : State K) (start : ℤ) (stop : Option ℤ)
     (h : start < 0 ∨ stop.getD s.x.length > s.x.length) :
@@ -341,5 +348,19 @@ private def s1 : State ℚ :=
   { x := [1], y := [1], rx := [1], ry := [1], ox := [1], oy := [1], callerX := [], callerY := [] }
 
 example : (step s1 (.appendOne true)).err = some .indexError := by decide +kernel
+
+/-- … and the half-way failure is reachable through public calls only: `interpolate(n=11)` makes
+the working series longer than the reference, `truncate_by_index(5, 11)` (bounds checked against the
+working series only) then empties the reference, and `append_one_sample` raises `IndexError` after
+having already extended `x, y`.  (Outside the letter of C20, which speaks of `ValueError`; confirmed
+on the real code.) -/
+private def sH : State ℚ := (runOps s5 [.interpN 11 "linear" [], .truncI 5 (some 11)]).state
+
+example : (runOps s5 [.interpN 11 "linear" [], .truncI 5 (some 11)]).err = none ∧
+    sH.x = [2, 12/5, 14/5, 16/5, 18/5, 4] ∧ sH.rx = [] := by decide +kernel
+
+example : (step sH (.appendOne false)).err = some .indexError ∧
+    (step sH (.appendOne false)).state.x = [2, 12/5, 14/5, 16/5, 18/5, 4, 22/5] ∧
+    (step sH (.appendOne false)).state.rx = [] := by decide +kernel
 
 end TWV.C20
